@@ -80,13 +80,20 @@ def table():
                 # proteins P0..P2 are present (high-scoring targets); P3..P5 are absent, so that their target/decoy
                 # pairs are won by either side and every level (proteins included) keeps both classes
                 cls = (("H" if (i + j) % 4 != 3 else "L") if i < 9 else "L") if is_t else "D"
-                key = {"H": 100.0, "D": 10.0, "L": 9.905}[cls] + r * 0.01
+                if not is_t and i in (12, 13) and j == 0:
+                    cls = "M"  # a decoy scoring clearly above its (absent) target: this protein pair is won by the decoy
+                key = {"H": 100.0, "D": 10.0, "L": 9.905, "M": 40.0}[cls] + r * 0.01
                 rows.append(dict(SpecId=f"s{r}", Label=1 if is_t else -1, ScanNr=100 + r // 2 + (7 if j == 1 else 0), ExpMass=700.5 + i,
                                  f_key=round(key, 3), f2=1.0 + float((r * 7919) % 101) / 500.0, f3=float((r * 31) % 17) / 10.0,
                                  Peptide=f"K.{p}.A", Proteins=("" if is_t else "decoy_") + f"sp|P{PROT_OF[i]}|X{PROT_OF[i]}"))
                 r += 1
-    # a second PSM for some spectra (competition) and enough rows for three folds
-    return pd.DataFrame(rows)
+    # sibling PSMs (a modified form of the same sequence): same spectrum, identical features (hence exactly equal scores), another peptide string - which
+    # of the two is reported is a tie-break that must not depend on the worker count, the process or the hash seed
+    df = pd.DataFrame(rows)
+    sib = df.iloc[[0, 8, 17, 40, 41, 77]].copy()
+    sib["SpecId"] = [f"sib{i}" for i in range(len(sib))]
+    sib["Peptide"] = [p[:4] + "[+16]" + p[4:] for p in sib["Peptide"]]  # modified form: same stripped sequence, other peptide
+    return pd.concat([df, sib]).reset_index(drop=True)
 
 
 def digest_files(d):
